@@ -568,6 +568,8 @@ PROPS["C12"]["rule"] += (" A third of the workloads run with the cron state hook
 
 # Native coverage-guided fuzzing (thorough tier only): the same generators and oracles, driven by `go test -fuzz`
 # through rapid.MakeFuzz.
-for _p, _t, _f in (("C05", "TestC05", "FuzzC05"),):
+for _p, _t, _f in (("C05", "TestC05", "FuzzC05"), ("C13", "TestC13", "FuzzC13"), ("C03", "TestC03", "FuzzC03"),
+                   ("C02", "TestC02", "FuzzC02"), ("C01", "TestC01", "FuzzC01"), ("C18", "TestC18", "FuzzC18"),
+                   ("C08", "TestC08", "FuzzC08")):
     PROPS[_p]["parts"].append({"name": "native-fuzz", "mode": "fuzz", "test": _t, "fuzz": _f,
                                "thorough": {"fuzztime": "120s", "timeout": 1200}})
